@@ -841,21 +841,25 @@ THOROUGH = [
     ("S3", "core4", 2, ("empty",), ("ctx",)),
     ("S3", "core4", 2, ("empty", "used"), ("aio",)),
     ("S3", "writes", 1, ("empty", "used"), ("ctx", "thr", "aio")),
-    ("S2", "none", 2, ("empty", "used", "falsy"), ("ctx", "aio", "thr")),
-    ("S2", "none5", 3, ("empty", "used"), ("ctx",)),
-    ("PC", "none", 2, ("used", "falsy"), ("ctx", "aio")),
+    ("S2", "none", 2, ("empty", "used", "falsy"), ("ctx", "aio")),
+    ("S2", "none", 2, ("used",), ("thr",)),
+    ("S2", "none5", 3, ("used",), ("ctx",)),
+    ("PC", "none", 2, ("used", "falsy"), ("ctx",)),
+    ("PC", "none5", 2, ("used",), ("aio",)),
     ("PC", "none5", 2, ("empty", "used"), ("thr", "aiox")),
     ("S2", "iter", 2, ("empty", "used"), ("ctx", "aio")),
     ("S2", "iter6", 2, ("empty", "used"), ("thr", "aiox")),
     ("S2", "iter6", 3, ("used",), ("ctx",)),
-    ("PC", "iter", 2, ("empty", "used"), ("ctx", "aio")),
+    ("PC", "iter", 2, ("empty", "used"), ("ctx",)),
+    ("PC", "iter6", 2, ("used",), ("aio",)),
     ("PC", "iter6", 2, ("used",), ("thr",)),
     ("S2", "box", 2, ("empty", "boxed"), ("ctx", "aio", "thr")),
-    ("S2", "box6", 3, ("empty", "boxed"), ("ctx",)),
+    ("S2", "box6", 3, ("empty",), ("ctx",)),
     ("PC", "box", 2, ("empty", "boxed"), ("ctx", "aio")),
     ("PC", "box6", 2, ("empty", "boxed"), ("thr", "aiox")),
     # round 2
-    ("S2", "falsy", 2, ("empty", "used", "falsy"), ("ctx", "aio")),
+    ("S2", "falsy", 2, ("empty", "used", "falsy"), ("ctx",)),
+    ("S2", "falsy", 2, ("falsy",), ("aio",)),
     ("S2", "falsy10", 2, ("empty", "falsy"), ("aiox",)),
     ("S2", "falsy6", 2, ("empty", "falsy"), ("thr",)),
     ("S2", "falsy6", 3, ("falsy",), ("ctx",)),
